@@ -143,7 +143,11 @@ func (w *azWorld) operator() {
 				r.Broken("load token: " + err.Error())
 				return
 			}
-			rec.CreationTime = timestamppb.New(time.Now().Add(-15 * 24 * time.Hour))
+			// past the default lifetime of 14 days by a lot, a little (inside
+			// the default clock skews, which have no say here) or a day
+			over := []time.Duration{24 * time.Hour, time.Minute, 4 * time.Minute, 386 * 24 * time.Hour}[w.rng.Intn(4)]
+			rec.CreationTime = timestamppb.New(time.Now().Add(-14*24*time.Hour - over))
+			r.Count("token_aged_past_lifetime_by:"+over.String(), 1)
 			if err := rec.Store(w.s.Ctx, w.s.Inner, w.s.StoreOpts()...); err != nil {
 				r.Broken("age token: " + err.Error())
 				return
